@@ -16,11 +16,13 @@ def run(c):
         pick, cnt = [], {}
         for g in cfgs:
             ks = [("size", g["size"]), ("ct", g["ct"]), ("shape", g["ct"] + g["shape"]), ("key", g["key"]), ("issuer", g["issuer"]), ("serial", g["serial"]), ("sched", g["ct"] + g["sched"])]
-            if any(cnt.get(k, 0) < 5 for k in ks) or len(pick) < 60:
+            # ... and every content size with the data type (detached content: the size classes matter most there) at least twice
+            k2 = [("datasize", g["size"])] if g["ct"] == "data" else []
+            if any(cnt.get(k, 0) < 5 for k in ks) or any(cnt.get(k, 0) < 2 for k in k2) or len(pick) < 60:
                 pick.append(g)
-                for k in ks:
+                for k in ks + k2:
                     cnt[k] = cnt.get(k, 0) + 1
-            if len(pick) >= 110:
+            if len(pick) >= 140:
                 break
         cfgs = pick
     cfgs += c.tlc("MC_P7Sign", "p7sign_sig.cfg", files={"p7sign_sig.cfg": open(os.path.join(vf.SPEC, "p7sign_cfgs.cfg")).read().replace("INIT Init", "INIT SigInit")}, name="signature-value-shapes").json_lines()
